@@ -232,3 +232,56 @@ Fixpoint rlookup (a p : nat) (rt : rtable) : list Z :=
    [resf a p k] stands for the result of running seed k of algorithm a on problem p *)
 Definition gen_jobs (algs probs : list nat) (seeds : nat) (resf : nat -> nat -> nat -> Z) : list ejob :=
   flat_map (fun a => flat_map (fun p => map (fun k => EJ a p (resf a p k)) (seq 0 seeds)) probs) algs.
+
+(* ---------------------------------------------------------------------------
+   evaluate_job_generator, the per-algorithm declaration (experimenter.py:70-92)
+
+       for i in range(len(algorithms)):
+           if isinstance(algorithms[i], tuple):
+               algorithm = algorithms[i][0]
+               kwargs = algorithms[i][1] if len(algorithms[i]) >= 2 else {}
+               algorithm_name = algorithms[i][2] if len(algorithms[i]) >= 3 else algorithm.__name__
+           else:
+               algorithm = algorithms[i]; algorithm_name = algorithm.__name__; kwargs = {}
+           if algorithm_name in existing_algorithms: raise PlatypusError(...)
+           else: existing_algorithms.add(algorithm_name)
+           for j problems: for k in range(seeds): yield ExperimentJob(algorithm(problem, **kwargs), ..)
+
+   An algorithm type is a nat, and its __name__ is that same nat as a name;
+   kwargs are an opaque Z identifier, 0 standing for the default {}.  The
+   default is re-established for EVERY declaration (it is not carried over
+   from the previous one).  [resf ty kw p k] = the result of replicate k of
+   algorithm type ty constructed with kwargs kw on problem p. *)
+Inductive adecl :=
+| DBare (ty : nat)                          (* a bare type *)
+| DTup1 (ty : nat)                          (* (type,) *)
+| DTup2 (ty : nat) (kw : Z)                 (* (type, kwargs) *)
+| DTup3 (ty : nat) (kw : Z) (name : nat).   (* (type, kwargs, name) *)
+
+Definition dty (d : adecl) : nat :=
+  match d with DBare ty | DTup1 ty | DTup2 ty _ | DTup3 ty _ _ => ty end.
+Definition dkw (d : adecl) : Z :=
+  match d with DBare _ | DTup1 _ => 0 | DTup2 _ kw | DTup3 _ kw _ => kw end.
+Definition dname (d : adecl) : nat :=
+  match d with DBare ty | DTup1 ty | DTup2 ty _ => ty | DTup3 _ _ nm => nm end.
+
+Definition decl_block (probs : list nat) (seeds : nat) (resf : nat -> Z -> nat -> nat -> Z) (d : adecl)
+  : list ejob :=
+  flat_map (fun p => map (fun k => EJ (dname d) p (resf (dty d) (dkw d) p k)) (seq 0 seeds)) probs.
+
+(* None = PlatypusError("only one algorithm with name ... can be run") *)
+Fixpoint decl_jobs_go (existing : list nat) (decls : list adecl) (probs : list nat) (seeds : nat)
+         (resf : nat -> Z -> nat -> nat -> Z) : option (list ejob) :=
+  match decls with
+  | [] => Some []
+  | d :: r =>
+      if existsb (Nat.eqb (dname d)) existing then None
+      else match decl_jobs_go (dname d :: existing) r probs seeds resf with
+           | None => None
+           | Some js => Some (decl_block probs seeds resf d ++ js)
+           end
+  end.
+
+Definition decl_jobs (decls : list adecl) (probs : list nat) (seeds : nat)
+           (resf : nat -> Z -> nat -> nat -> Z) : option (list ejob) :=
+  decl_jobs_go [] decls probs seeds resf.
